@@ -623,6 +623,32 @@ func forEachKeyGridCell(sh, nsh int, f func(cell string, wire []byte)) int {
 			}
 		}
 	}
+	// compressed points (RFC 9053 7.1.1: y given as a boolean): x is / is not the abscissa of a point
+	for _, ci := range []int64{1, 2, 3} {
+		x0, _, d0 := c15Coords(ci)
+		for _, withAlg := range []bool{false, true} {
+			for dx := 0; dx < 4; dx++ {
+				for _, yb := range []bool{false, true} {
+					for _, withD := range []bool{false, true} {
+						cnt++
+						if cnt%nsh != sh {
+							continue
+						}
+						x := append([]byte{}, x0...)
+						x[len(x)-1] += byte(dx)
+						m := rc.Map(rc.E(rc.Int(1), rc.Int(2)), rc.E(rc.Int(-1), rc.Int(ci)), rc.E(rc.Int(-2), rc.Bytes(x)), rc.E(rc.Int(-3), rc.Bool(yb)))
+						if withAlg {
+							m.M = append(m.M, rc.E(rc.Int(3), rc.Int(map[int64]int64{1: -7, 2: -35, 3: -36}[ci])))
+						}
+						if withD {
+							m.M = append(m.M, rc.E(rc.Int(-4), rc.Bytes(d0)))
+						}
+						f(fmt.Sprintf("compressed kty=2 crv=%d alg=%v x+%d y=%v d=%v", ci, withAlg, dx, yb, withD), rc.Encode(m, nil))
+					}
+				}
+			}
+		}
+	}
 	return cnt
 }
 
